@@ -69,11 +69,12 @@ ReduceFamily(z) ==
             \* var/std with N - ddof <= 0 is not a regular point
             ax \in {a \in AxisChoices(Len(s)) : NReduced(s, a) >= 2}, kd \in BOOLEAN} : s \in RedShapes}
   \cup UNION {{Cfg(q[1], q[2], s, <<>>, <<>>, 0, ax, kd, q[3], 0, <<>>, "-", q[4], "array", ReduceShape(s, ax, kd)) :
-            q \in {qq \in RedCombos : (qq[2] = "method" => s # <<>>) /\ qq[1] \notin {"var", "std"}},
+            \* a single reduced element: var / std with ddof = 0 are identically 0 there (regular, and special-cased by the rules); ddof = 1 is 0/0
+            q \in {qq \in RedCombos : (qq[2] = "method" => s # <<>>) /\ (qq[1] \in {"var", "std"} => qq[3] = 0)},
             ax \in {a \in AxisChoices(Len(s)) : NReduced(s, a) < 2}, kd \in BOOLEAN} : s \in RedShapes}
 CumFamily(z) ==
-  UNION {{Cfg("cumsum", "func", s, <<>>, <<>>, 0, ax, FALSE, 0, 0, <<>>, "-", "rr", "array", NA) :
-            ax \in {a \in AxisChoices(Len(s)) : a.k # "tuple"}} : s \in RedShapes}
+  UNION {{Cfg("cumsum", f, s, <<>>, <<>>, 0, ax, FALSE, 0, 0, <<>>, "-", "rr", "array", NA) :
+            f \in {"func", "method"}, ax \in {a \in AxisChoices(Len(s)) : a.k # "tuple"}} : s \in RedShapes}
 \* ---------------------------------------------------------------- elementwise unary
 UnaryFuncs == {"negative", "abs", "absolute", "fabs", "exp", "exp2", "expm1", "log", "log2", "log10", "log1p", "sin", "cos", "tan",
                "arcsin", "arccos", "arctan", "sinh", "cosh", "tanh", "arcsinh", "arccosh", "arctanh", "sqrt", "square", "reciprocal",
@@ -107,6 +108,7 @@ RearrFamily(z) ==
     {R1("transpose", f, s, NoAx, 0, 0, <<>>, "none") : f \in {"func", "method", "T"}}
     \cup {R1("transpose", f, s, NoAx, 0, 0, q, SignName(q)) : f \in {"func", "method", "method_tuple"}, q \in UNION {SignVariants(p, Len(s)) : p \in Perms(Len(s))}}
     \cup {R1(p, "func", s, NoAx, a, b, <<>>, "-") : p \in {"swapaxes", "moveaxis"}, a \in AxisInts(Len(s)), b \in AxisInts(Len(s))}
+    \cup {R1("swapaxes", "method", s, NoAx, a, b, <<>>, "-") : a \in AxisInts(Len(s)), b \in AxisInts(Len(s))}
     \cup {R1("rollaxis", "func", s, NoAx, a, b, <<>>, "-") : a \in AxisInts(Len(s)), b \in (-Len(s))..Len(s)}
     \cup {R1("expand_dims", "func", s, NoAx, a, 0, <<>>, "-") : a \in (-Len(s) - 1)..Len(s)}
     \cup {R1("squeeze", f, s, NoAx, 0, 0, <<>>, "-") : f \in {"func", "method"}}
@@ -115,7 +117,7 @@ RearrFamily(z) ==
     \cup {R1("ravel", f, s, NoAx, 0, 0, <<>>, o) : f \in {"func", "method"}, o \in {"C", "F"}}
     \cup {R1("flatten", "method", s, NoAx, 0, 0, <<>>, "-")}
     \* repetition
-    \cup {R1("repeat", "func", s, ax, r, 0, <<>>, "-") : r \in 1..3, ax \in {NoAx} \cup {AxInt(a) : a \in AxisInts(Len(s))}}
+    \cup {R1("repeat", f, s, ax, r, 0, <<>>, "-") : f \in {"func", "method"}, r \in 1..3, ax \in {NoAx} \cup {AxInt(a) : a \in AxisInts(Len(s))}}
     \cup {R1("tile", "func", s, NoAx, 0, 0, t, "-") : t \in {<<2>>, <<1, 2>>, <<2, 1>>, <<2, 2>>, <<1, 1, 2>>, <<2, 1, 1, 1>>}}
     \cup {R1("tile", "func", s, NoAx, 2, 0, <<>>, "int")}
     \cup {R1("broadcast_to", "func", s, NoAx, 0, 0, t, "-") : t \in {tt \in {<<2, 3>>, <<2, 2, 3>>, <<3>>, <<1, 3>>, <<2, 1, 3>>, <<3, 3>>} : BroadcastOK(s, tt) /\ Broadcast(s, tt) = tt}}
@@ -150,6 +152,9 @@ RearrFamily(z) ==
   \* np.gradient needs at least 4 points along the differentiated axis for its reverse rule
   \cup UNION {{R1("gradient", "func", s, AxInt(a), 0, 0, <<>>, "axis") : a \in AxisInts(Len(s))} \cup {R1("gradient", "func", s, NoAx, 0, 0, <<>>, "-")}
               : s \in {<<5>>, <<4>>, <<2, 4>>, <<4, 2>>, <<4, 5>>}}
+  \* several axes at once (NumPy returns one array per axis; the harness combines them with distinct weights): no axis on a 2-D array, tuple / list axis
+  \cup {R1("gradient", "func", s, NoAx, 0, 0, t, st) : s \in {<<4, 5>>, <<4, 4>>, <<5, 4>>}, t \in {<<0, 1>>, <<1, 0>>, <<-1, 0>>, <<0>>, <<-1>>}, st \in {"tupleaxis", "listaxis"}}
+  \cup {R1("gradient", "func", s, NoAx, 0, 0, <<>>, "multi") : s \in {<<4, 5>>, <<4, 4>>}}
 
 
 \* ---------------------------------------------------------------- joins: several operands, some of them the differentiated value
@@ -235,10 +240,11 @@ LinalgFamily(z) ==
   {L1(p, b, n, 0, 0, "-", <<>>, k) : p \in {"det", "slogdet", "inv", "pinv"}, b \in Batches, n \in 1..3, k \in Kinds \cap {"rr", "cc"}}
   \cup {L1("pinv", b, q[1], q[2], 0, "-", <<>>, "rr") : b \in Batches, q \in {<<2, 3>>, <<3, 2>>}}
   \cup {L1("solve", b, n, 0, a, st, <<>>, k) : b \in Batches, n \in 1..3, a \in {0, 1}, st \in {"vec", "mat"}, k \in Kinds \cap {"rr", "cc"}}
-  \cup {L1("cholesky", b, n, 0, 0, "-", <<>>, "rr") : b \in Batches, n \in 1..3}
-  \cup {L1("eigh", b, n, 0, 0, st, <<o>>, "rr") : b \in Batches, n \in 1..3, st \in {"L", "U", "default"}, o \in {0, 1}}
-  \cup {L1("eig", b, n, 0, 0, "-", <<o>>, "rr") : b \in Batches, n \in 1..3, o \in {0, 1}}
-  \cup {L1("svd", b, n, m, 0, st, <<o>>, "rr") : b \in Batches, n \in 2..3, m \in 2..3, st \in {"s_only", "thin", "full"}, o \in 0..2}
+  \* kind "cc": Hermitian / general complex input; only phase-invariant outputs (eigen / singular values, |vectors|^2, the Cholesky factor)
+  \cup {L1("cholesky", b, n, 0, 0, "-", <<>>, k) : b \in Batches, n \in 1..3, k \in Kinds \cap {"rr", "cc"}}
+  \cup {L1("eigh", b, n, 0, 0, st, <<o>>, k) : b \in Batches, n \in 1..3, st \in {"L", "U", "default"}, o \in {0, 1}, k \in Kinds \cap {"rr", "cc"}}
+  \cup {L1("eig", b, n, 0, 0, "-", <<o>>, k) : b \in Batches, n \in 1..3, o \in {0, 1}, k \in Kinds \cap {"rr", "cc"}}
+  \cup {L1("svd", b, n, m, 0, st, <<o>>, k) : b \in Batches, n \in 2..3, m \in 2..3, st \in {"s_only", "thin", "full"}, o \in 0..2, k \in Kinds \cap {"rr", "cc"}}
   \cup {Cfg("norm", "func", sh, <<>>, <<>>, 0, ax, kd, 0, 0, <<>>, o, k, "array", NA) :
           sh \in {<<3>>, <<2, 3>>, <<3, 3>>} \cup (IF MaxRank >= 3 THEN {<<2, 3, 2>>} ELSE {}),
           ax \in UNION {{a \in AxisChoices(r) : a.k # "tuple" \/ Len(a.t) = 2} : r \in 1..3}, kd \in BOOLEAN,
